@@ -200,6 +200,8 @@ class PrettyPrinter:
         """
         lines = []
         for k, v in d.items():
+            if self.__is_metadata(k):
+                continue
             cfg_val = self.quoter.add_quotes(k.upper())
             k = f"CONFIG {cfg_val}"
             v = self.quoter.add_quotes(v)
